@@ -23,8 +23,30 @@ def _read(repo, rel):
 
 
 def _strip_comments(s):
-    s = re.sub(r"/\*.*?\*/", lambda m: " " * 0 + "\n" * m.group(0).count("\n"), s, flags=re.S)
-    return re.sub(r"//[^\n]*", "", s)
+    """remove /* */ and // comments, keeping line numbers; string and character literals are left alone"""
+    out, i, n = [], 0, len(s)
+    while i < n:
+        c = s[i]
+        if c == '"' or c == "'":
+            j = i + 1
+            while j < n and s[j] != c:
+                j += 2 if s[j] == "\\" else 1
+                if j < n and s[j - 1] == "\n" and c == "'":
+                    break           # a stray apostrophe (e.g. in a #error text): not a literal
+            out.append(s[i:j + 1])
+            i = j + 1
+        elif s.startswith("/*", i):
+            j = s.find("*/", i + 2)
+            j = n if j < 0 else j + 2
+            out.append("\n" * s.count("\n", i, j))
+            i = j
+        elif s.startswith("//", i):
+            j = s.find("\n", i)
+            i = n if j < 0 else j
+        else:
+            out.append(c)
+            i += 1
+    return "".join(out)
 
 
 def _body(text, sig_re, what):
@@ -1133,7 +1155,7 @@ def exit_discipline(repo):
         ff = _functions(t)
 
         def prints(body, depth=0):
-            if re.search(r"fprintf\s*\(\s*stderr|ERRORreport|\bperror\s*\(", body):
+            if re.search(r"fprintf\s*\(\s*stderr|ERRORreport|\bperror\s*\(|\bcerr\s*<<", body):
                 return True
             if depth >= 3:
                 return False
